@@ -32,7 +32,8 @@ inductive MOp
 /-- what the node showed during one operation -/
 structure Obs where
   reply : Option Reply          -- none: no reply belongs to this kind of operation / none observed
-  pubs : List NS
+  pubs : List NS                -- states in the order the cluster provider saw their publication complete
+  upd : List NS                 -- the node's own state changes: states in the order it handed them to UpdateNodeState
   stops : Nat
   sent : List (Nat × SCmd)
   st : NS
@@ -103,8 +104,10 @@ def Mon.clauses (m : Mon) (op : MOp) (o : Obs) : List (Bool × String) :=
     (exitAccepted op o && m.cur != .retired, "C12/exit-accepted-when-not-retired"),
     -- the published state only ever moves forward
     (!monotoneFrom m.cur.rank o.pubs, "C12/state-regression"),
-    -- the published state is the node's state
+    -- the published state is the node's state: what reaches the cluster is the node's own sequence of
+    -- state changes, in that order, and ends at the node's state
     (lastOr m.cur o.pubs != o.st, "C12/published-state-differs"),
+    (o.pubs != o.upd, "C12/published-sequence-differs"),
     -- StopNode at most once, and only as part of an accepted exit
     (decide (m.stopsTotal + o.stops > 1), "C12/stopnode-twice"),
     (decide (o.stops > 0) && !exitAccepted op o, "C12/stopnode-without-exit"),
@@ -171,7 +174,7 @@ def sentOf (es : List Evt) : List (Nat × SCmd) :=
   es.filterMap (fun e => match e with | .send i c => some (i, c) | _ => none)
 
 def obsOf (s' : St) (es : List Evt) : Obs :=
-  { reply := replyOf es, pubs := pubsOf es, stops := stops es, sent := sentOf es, st := s'.st }
+  { reply := replyOf es, pubs := pubsOf es, upd := pubsOf es, stops := stops es, sent := sentOf es, st := s'.st }
 
 /-- the operation as the monitor sees it: a support answer counts as a declaration only if
 the node's query was still outstanding (the weakest reading — every extra declaration the
